@@ -279,6 +279,7 @@ func opSv(c *core.Ctx, n int64) {
 
 func varintCase(c *core.Ctx, r *rand.Rand) {
 	c.NonTrivial()
+	encUtilsOps(c, r) // Round 12: utils.go + the 16/16 split of a uint32 (encutils.go)
 	n := 12 + r.Intn(20)
 	for k := 0; k < n; k++ {
 		switch r.Intn(9) {
@@ -1307,6 +1308,7 @@ func addOffset(c *core.Ctx, enc *encoding.FixedOffsetEncoder, v int) (ok bool) {
 
 func fixedOffsetCase(c *core.Ctx, r *rand.Rand) {
 	byteSlice2Uint32Ops(c, r)
+	foScanReuse(c, r) // Round 12: access-pattern histories on one decoder object (foscan.go)
 	var enc *encoding.FixedOffsetEncoder
 	var dec *encoding.FixedOffsetDecoder
 	defer func() {
@@ -1383,6 +1385,12 @@ func fixedOffsetCase(c *core.Ctx, r *rand.Rand) {
 			}
 		}
 		guard(c, "fe size 0", func() string { return fmt.Sprint(enc.Size()) })
+		guard(c, "fe empty 0", func() string {
+			if enc.IsEmpty() != (enc.Size() == 0) {
+				c.Fail("fo-is-empty", fmt.Sprintf("IsEmpty() = %v on an encoder of %d offsets", enc.IsEmpty(), enc.Size()))
+			}
+			return fmt.Sprint(enc.IsEmpty())
+		})
 		var data []byte
 		guard(c, "fe marshal 0", func() string { data = cp(enc.MarshalBinary()); return hx(data) })
 		if r.Intn(2) == 0 {
